@@ -143,7 +143,7 @@ def build_unit(u, tier, extra_defs=(), tag='', trace=False):
            'canary': None, 'by_class': {}, 'assumes': [], 'samples': []}
     t0 = time.time()
     defs = list(tier_val(u, 'defines', tier, []) or []) + list(extra_defs) + ['UNIT_' + name]
-    defmap = {d.split('=')[0]: True for d in defs}
+    defmap = {d.split('=')[0]: (d.split('=', 1)[1] if '=' in d else True) for d in defs}
     try:
         ctext, _, infos = xtract.expand_template(REPO, open(u['_template']).read(), defmap)
     except xtract.ExtractError as e:
@@ -279,7 +279,7 @@ def build_unit(u, tier, extra_defs=(), tag='', trace=False):
     elif n < u.get('min_obligations', 1):
         res['status'] = 'vacuous'
         res['detail'] = 'only %d obligations generated, floor is %d' % (n, u.get('min_obligations', 1))
-    elif has_loop_contracts and byc.get('loop_invariant_step', 0) < u.get('min_loops', 1):
+    elif byc.get('loop_invariant_step', 0) < u.get('min_loops', 0):
         res['status'] = 'vacuous'
         res['detail'] = 'loop contracts present in the spec but only %d loop_invariant_step obligations generated (need %d)' % (byc.get('loop_invariant_step', 0), u.get('min_loops', 1))
     else:
